@@ -201,7 +201,9 @@ def run(rec, tier, seed):
     kws = [dict(), dict(use_neutron_count=True), dict(use_neutron_count=True, output_masses_for_neutron_offset=True), dict(is_abundance_sum=True),
            dict(distribution_abundance=100.0, is_abundance_sum=True, precision=3), dict(distribution_abundance=0.5), dict(max_isotopes=3),
            dict(min_abundance_threshold=1e-3), dict(distribution_resolution=2), dict(distribution_resolution=0, is_abundance_sum=True),
-           dict(max_isotopes=20, min_abundance_threshold=1e-6, distribution_abundance=1e6)]
+           dict(max_isotopes=20, min_abundance_threshold=1e-6, distribution_abundance=1e6),
+           # a caller-chosen peak spacing (neutron_mass) only spaces the neutron-offset view: explicit 'n' entries keep the physical neutron mass
+           dict(neutron_mass=1.00335), dict(use_neutron_count=True, output_masses_for_neutron_offset=True, neutron_mass=1.002856)]
     for comp in comps:
         for kw in kws:
             if tier == 'quick' and sum(v for k, v in comp.items() if k not in 'epn') > 100 and kw and rnd.random() < 0.5:
@@ -218,12 +220,12 @@ def main():
     if a.replay:
         replay_main(a, {'distribution': case, 'merge': case_merge})
     rec = Recorder('C14-bounded',
-                   'compositions over C,H,N,O,S,P (+ Se, Cl, Br, Fe for normalisation), counts 0..200 integer and fractional, e/p/n entries x 11 '
-                   'option sets (neutron view, output masses, sum / peak normalisation, requested abundance, pruning, resolution 0..5): sorted, '
+                   'compositions over C,H,N,O,S,P (+ Se, Cl, Br, Fe for normalisation), counts 0..200 integer and fractional, e/p/n entries x 13 '
+                   'option sets (neutron view, output masses, caller-chosen neutron spacing, sum / peak normalisation, requested abundance, pruning, resolution 0..5): sorted, '
                    'normalised, lightest peak = monoisotopic mass incl. particles and mean = average mass (no pruning), neutron view = mass '
                    'view binned by nominal mass, exact multinomial expansion for <= 12 atoms (independent isotope table), merge adds '
                    'abundances at equal masses',
-                   bound='21 fixed + 40 (quick) / 1200 (thorough) random compositions x 11 option sets')
+                   bound='21 fixed + 40 (quick) / 1200 (thorough) random compositions x 13 option sets')
     run(rec, a.tier, a.seed)
     rec.dump(a.out, exhaustive=False)
 
